@@ -47,7 +47,7 @@ class C31(OpMachine):
     quick_runs = 2500
     thorough_runs = 60000
     chunk = 100
-    expected_probes = ["structured_program", "random_bytes", "split_happened", "worklist_choice_points",
+    expected_probes = ["structured_program", "random_bytes", "overlapping_streams", "split_happened", "worklist_choice_points",
                        "split_dis_hit", "lines_wd_cut", "blocs_wd_cut", "bad_block", "merge_applied", "delayslot_arch",
                        "second_order_compared"]
 
@@ -70,6 +70,32 @@ class C31(OpMachine):
     # ---- generation ---------------------------------------------------------------
     def gen(self, rng, steer):
         r = rng.random()
+        if r < 0.12:
+            # overlapping instruction streams (x86): a long instruction whose tail bytes decode, from a
+            # jump into its middle, as another long instruction straddling the following boundaries, and
+            # further jumps to those boundaries: addresses that are an instruction start in one block and
+            # the middle of an instruction in an overlapping one
+            arch = "x86_32"
+            nfill = rng.randint(3, 7)
+            fill = [rng.choice([0x40, 0x41, 0x43, 0x90, 0x48]) for _ in range(nfill)]
+            long1 = [0xB8, rng.getrandbits(8), rng.getrandbits(8), rng.getrandbits(8), rng.choice([0xB8, 0xB9, 0x05, 0x3D, 0x68])]
+            tail = [0xC3] + [0x90] * 4
+            njmp = rng.randint(2, 4)
+            head_len = 2 * njmp
+            a0 = head_len
+            targets = [a0 + 4] + [a0 + 5 + rng.randrange(min(4, nfill)) for _ in range(njmp - 1)]
+            rng.shuffle(targets)
+            head = []
+            for i, t in enumerate(targets):
+                opc = rng.choice([0x74, 0x75, 0x72, 0x73, 0x7C])
+                head += [opc, (t - (2 * i + 2)) & 0xFF]
+            data = bytearray(head + long1 + fill + tail)
+            kind = "overlap"
+            cfg = {"arch": arch, "data": list(data), "kind": kind, "start": 0, "dont_dis": [], "split_dis": [],
+                   "lines_wd": rng.choice([None, None, 5]), "blocs_wd": None, "follow_call": False, "dontdis_retcall": False,
+                   "merge": rng.random() < 0.3}
+            picks = [rng.randrange(8) for _ in range(rng.randint(0, 24))]
+            return {"cfg": cfg, "actions": [["pick", p] for p in picks] or [["pick", 0]]}
         if r < 0.5:
             arch = "x86_32"
             feat = set(f for f in ["mem", "stack", "call", "loop", "branch", "indirect", "rep"] if rng.random() < 0.6)
@@ -182,7 +208,8 @@ class C31(OpMachine):
     def finish(self, w, log):
         cfg = w.cfg
         facts = {"arch": cfg["arch"], "kind": cfg["kind"], "lines_wd": cfg["lines_wd"], "blocs_wd": cfg["blocs_wd"]}
-        w.probe("structured_program" if cfg["kind"].startswith("structured") else "random_bytes")
+        w.probe({"structured": "structured_program", "structured+flips": "structured_program",
+                 "overlap": "overlapping_streams"}.get(cfg["kind"], "random_bytes"))
         counter = {}
         try:
             m, attrib, loc_db, bs, mdis, asmcfg, ncalls = self._disasm(cfg, w.picks, counter)
